@@ -1,19 +1,57 @@
 import LekkerVerif.Model.Wiring
 
-/-! Invariant of the wiring state machine and its preservation by `add_structure` and `connect`;
+/-! Invariant of the wiring state machine and its preservation by every wiring call
+(`add_structure`, `connect`, `cut_structure`, `remove_structure`, `map_pins`);
 atomicity and idempotence of `connect`. -/
 
 namespace Wiring
 
+def ends (c : Pin × Pin) : List Pin := [c.1, c.2]
+
+/-- consistency of the three redundant solver views and of the per-structure tables -/
 structure WInv (w : W) : Prop where
-  keysConnected : ∀ i o, getObj w i = some o → ∀ e ∈ o.conn, (i, e.1) ∈ w.clist
   pinsNodup : ∀ i o, getObj w i = some o → o.pins.Nodup
+  connToNodup : ∀ i o, getObj w i = some o → o.connTo.Nodup
+  structsNodup : w.structs.Nodup
   freeObj : ∀ x ∈ w.free, x.1 ∈ w.structs ∧ ∃ o, getObj w x.1 = some o ∧ x.2 ∈ o.pins
-  clistStructs : ∀ x ∈ w.clist, x.1 ∈ w.structs
+  clistObj : ∀ x ∈ w.clist, x.1 ∈ w.structs ∧ ∃ o, getObj w x.1 = some o ∧ x.2 ∈ o.pins
   clistNodup : w.clist.Nodup
   freeNodup : w.free.Nodup
   freeDisj : ∀ x ∈ w.free, x ∉ w.clist
   clistConns : w.clist = w.conns.flatMap (fun c => [c.1, c.2])
+  /-- every pin of a present structure is either free or connected -/
+  freeComplete : ∀ i ∈ w.structs, ∀ o, getObj w i = some o → ∀ p ∈ o.pins, (i, p) ∈ w.free ∨ (i, p) ∈ w.clist
+  /-- every entry of a structure's own table is a connection of the solver -/
+  entryConn : ∀ i o, getObj w i = some o → ∀ e ∈ o.conn, ((i, e.1), e.2) ∈ w.conns ∨ (e.2, (i, e.1)) ∈ w.conns
+  entryTo : ∀ i o, getObj w i = some o → ∀ e ∈ o.conn, e.2.1 ∈ o.connTo
+  /-- every connection of the solver is recorded in the tables of both structures -/
+  connsEntry : ∀ c ∈ w.conns, (∃ o, getObj w c.1.1 = some o ∧ (c.1.2, c.2) ∈ o.conn) ∧
+                              (∃ o, getObj w c.2.1 = some o ∧ (c.2.2, c.1) ∈ o.conn)
+
+theorem mem_clist_iff {w : W} (inv : WInv w) (x : Pin) : x ∈ w.clist ↔ ∃ c ∈ w.conns, x = c.1 ∨ x = c.2 := by
+  rw [inv.clistConns, List.mem_flatMap]
+  constructor
+  · rintro ⟨c, hc, hx⟩; exact ⟨c, hc, by simpa using hx⟩
+  · rintro ⟨c, hc, hx⟩; exact ⟨c, hc, by simpa using hx⟩
+
+theorem WInv.clistStructs {w : W} (inv : WInv w) : ∀ x ∈ w.clist, x.1 ∈ w.structs := fun x hx => (inv.clistObj x hx).1
+
+theorem WInv.keysConnected {w : W} (inv : WInv w) : ∀ i o, getObj w i = some o → ∀ e ∈ o.conn, (i, e.1) ∈ w.clist := by
+  intro i o ho e he
+  rw [mem_clist_iff inv]
+  rcases inv.entryConn i o ho e he with h | h
+  · exact ⟨_, h, Or.inl rfl⟩
+  · exact ⟨_, h, Or.inr rfl⟩
+
+/-- the neighbour named in a table entry lists this structure in its `connected_to` -/
+theorem WInv.recip {w : W} (inv : WInv w) : ∀ i o, getObj w i = some o → ∀ e ∈ o.conn,
+    ∃ ot, getObj w e.2.1 = some ot ∧ i ∈ ot.connTo := by
+  intro i o ho e he
+  rcases inv.entryConn i o ho e he with h | h
+  · obtain ⟨ot, hot, hmem⟩ := (inv.connsEntry _ h).2
+    exact ⟨ot, hot, inv.entryTo _ ot hot _ hmem⟩
+  · obtain ⟨ot, hot, hmem⟩ := (inv.connsEntry _ h).1
+    exact ⟨ot, hot, inv.entryTo _ ot hot _ hmem⟩
 
 theorem find_map_same (l : List (Nat × SObj)) (i : Nat) (o o' : SObj)
     (h : (l.find? (·.1 == i)).map (·.2) = some o) :
@@ -64,53 +102,125 @@ theorem getObj_setObj_isSome (w : W) (i j : Nat) (o' : SObj) (hi : (getObj w i).
     rw [getObj_setObj_same w j o o' ho, ho]; rfl
   · rw [getObj_setObj_other w i j o' h]
 
+
+
+def ctOf (o : SObj) (t : Nat) : List Nat := if o.connTo.contains t then o.connTo else o.connTo ++ [t]
+
+theorem mem_ctOf_self (o : SObj) (t : Nat) : t ∈ ctOf o t := by
+  unfold ctOf; split
+  · rename_i h; simpa using h
+  · simp
+
+theorem mem_ctOf_of_mem (o : SObj) (t x : Nat) (h : x ∈ o.connTo) : x ∈ ctOf o t := by
+  unfold ctOf; split
+  · exact h
+  · exact List.mem_append_left _ h
+
+theorem ctOf_nodup (o : SObj) (t : Nat) (h : o.connTo.Nodup) : (ctOf o t).Nodup := by
+  unfold ctOf; split
+  · exact h
+  · rename_i hc
+    have hc' : t ∉ o.connTo := by simpa using hc
+    refine List.nodup_append.2 ⟨h, by simp, ?_⟩
+    intro a ha b hb
+    have : b = t := by simpa using hb
+    subst this; intro e; exact hc' (e ▸ ha)
+
 /-- `add_conn` cannot raise on a pin that has no entry yet -/
 theorem addConn_of_no_key (o : SObj) (pin : Nat) (target : Pin) (h : ∀ e ∈ o.conn, e.1 ≠ pin) :
-    ∃ ct, addConn o pin target = some { o with conn := o.conn ++ [(pin, target)], connTo := ct } := by
+    addConn o pin target = some { o with conn := o.conn ++ [(pin, target)], connTo := ctOf o target.1 } := by
   unfold addConn
   have : o.conn.find? (·.1 == pin) = none := by
     rw [List.find?_eq_none]; intro e he; simpa using h e he
-  simp [this]
+  simp [this, ctOf]
 
-/-- **atomicity of connect**: in a consistent state a rejected `connect` leaves everything unchanged -/
-theorem connect_atomic (w : W) (inv : WInv w) (p q : Pin) (h : (connect w p q).2 ≠ .ok) : (connect w p q).1 = w := by
-  unfold connect at h ⊢
-  split
-  · rfl
-  · split
-    · split
-      · rfl
-      · split <;> rfl
-    · split
+def w1 (w : W) (p q : Pin) : W :=
+  { w with clist := w.clist ++ [p, q], conns := w.conns ++ [(p, q)], free := (w.free.erase p).erase q }
+def addC (o : SObj) (pin : Nat) (t : Pin) : SObj := { o with conn := o.conn ++ [(pin, t)], connTo := ctOf o t.1 }
+def connectResult (w : W) (p q : Pin) (op oq : SObj) : W :=
+  setObj (setObj (w1 w p q) p.1 (addC op p.2 q)) q.1 (addC oq q.2 p)
+
+/-- what `connect` does in a consistent state: nothing, or the complete update of every table -/
+theorem connect_cases (w : W) (inv : WInv w) (p q : Pin) :
+    ((connect w p q).1 = w ∧ ((connect w p q).2 = .ok ∨ (connect w p q).2 = .valueError)) ∨
+    ∃ op oq, p.1 ≠ q.1 ∧ p ∉ w.clist ∧ q ∉ w.clist ∧ p ∈ w.free ∧ q ∈ w.free ∧
+      getObj w p.1 = some op ∧ getObj w q.1 = some oq ∧
+      (connect w p q) = (connectResult w p q op oq, .ok) := by
+  by_cases hpq : (p.1 == q.1) = true
+  · left; unfold connect; rw [if_pos hpq]; exact ⟨rfl, Or.inr rfl⟩
+  by_cases hp : w.clist.contains p = true
+  · left; unfold connect; rw [if_neg hpq, if_pos hp]; split; exact ⟨rfl, Or.inl rfl⟩
+    split; exact ⟨rfl, Or.inl rfl⟩; exact ⟨rfl, Or.inr rfl⟩
+  by_cases hq : w.clist.contains q = true
+  · left; unfold connect; rw [if_neg hpq, if_neg hp, if_pos hq]; exact ⟨rfl, Or.inr rfl⟩
+  by_cases hfree : (!(w.free.contains p) || !(w.free.contains q)) = true
+  · left; unfold connect; rw [if_neg hpq, if_neg hp, if_neg hq, if_pos hfree]; exact ⟨rfl, Or.inr rfl⟩
+  right
+  have hp' : p ∉ w.clist := by simpa using hp
+  have hq' : q ∉ w.clist := by simpa using hq
+  have hfp : p ∈ w.free ∧ q ∈ w.free := by
+    simp only [Bool.or_eq_true, Bool.not_eq_true', not_or, Bool.not_eq_false] at hfree
+    exact ⟨by simpa using hfree.1, by simpa using hfree.2⟩
+  obtain ⟨_, op, hop, _⟩ := inv.freeObj p hfp.1
+  obtain ⟨_, oq, hoq, _⟩ := inv.freeObj q hfp.2
+  have hne : q.1 ≠ p.1 := by intro e; apply hpq; simp [e]
+  have kp : ∀ e ∈ op.conn, e.1 ≠ p.2 := fun e he hk => hp' (by
+    have := inv.keysConnected p.1 op hop e he; rwa [hk] at this)
+  have kq : ∀ e ∈ oq.conn, e.1 ≠ q.2 := fun e he hk => hq' (by
+    have := inv.keysConnected q.1 oq hoq e he; rwa [hk] at this)
+  have h1 := addConn_of_no_key op p.2 q kp
+  have h2 := addConn_of_no_key oq q.2 p kq
+  refine ⟨op, oq, fun e => hne e.symm, hp', hq', hfp.1, hfp.2, hop, hoq, ?_⟩
+  unfold connect
+  rw [if_neg hpq, if_neg hp, if_neg hq, if_neg hfree]
+  have g1 : getObj { w with clist := w.clist ++ [p, q], conns := w.conns ++ [(p, q)], free := (w.free.erase p).erase q } p.1 = some op := hop
+  simp only [g1, h1]
+  have g2 : getObj (setObj { w with clist := w.clist ++ [p, q], conns := w.conns ++ [(p, q)], free := (w.free.erase p).erase q } p.1
+      { op with conn := op.conn ++ [(p.2, q)], connTo := ctOf op q.1 }) q.1 = some oq := by
+    rw [getObj_setObj_other _ _ _ _ hne]; exact hoq
+  simp only [g2, h2]
+  rfl
+
+/-- in a consistent state, connecting two free pins of different structures is accepted and carried out in full -/
+theorem connect_full (w : W) (inv : WInv w) (p q : Pin) (hne : p.1 ≠ q.1) (hfp : p ∈ w.free) (hfq : q ∈ w.free) :
+    ∃ op oq, getObj w p.1 = some op ∧ getObj w q.1 = some oq ∧ connect w p q = (connectResult w p q op oq, .ok) := by
+  rcases connect_cases w inv p q with h | ⟨op, oq, _, _, _, _, _, hop, hoq, h⟩
+  · exfalso
+    -- the call cannot have been a no-op: none of the rejecting branches applies
+    have hp : p ∉ w.clist := inv.freeDisj p hfp
+    have hq : q ∉ w.clist := inv.freeDisj q hfq
+    have b1 : (p.1 == q.1) = false := by simpa using hne
+    have b2 : w.clist.contains p = false := by simpa using hp
+    have b3 : w.clist.contains q = false := by simpa using hq
+    have b4 : (!(w.free.contains p) || !(w.free.contains q)) = false := by simp [hfp, hfq]
+    have hfree' : (connect w p q).1.free = (w.free.erase p).erase q := by
+      unfold connect
+      rw [b1, b2, b3, b4]
+      simp only [Bool.false_eq_true, ↓reduceIte]
+      split
       · rfl
       · split
         · rfl
-        · rename_i hpq hp hq hfree
-          -- both pins are free: the tables are written, and neither add_conn can raise
-          exfalso
-          have hp' : p ∉ w.clist := by simpa using hp
-          have hq' : q ∉ w.clist := by simpa using hq
-          have hfp : p ∈ w.free ∧ q ∈ w.free := by
-            simp only [Bool.or_eq_true, Bool.not_eq_true', not_or, Bool.not_eq_false] at hfree
-            exact ⟨by simpa using hfree.1, by simpa using hfree.2⟩
-          obtain ⟨_, op, hop, _⟩ := inv.freeObj p hfp.1
-          obtain ⟨_, oq, hoq, _⟩ := inv.freeObj q hfp.2
-          have hne : q.1 ≠ p.1 := by
-            intro e; apply hpq; simp [e]
-          have kp : ∀ e ∈ op.conn, e.1 ≠ p.2 := fun e he hk => hp' (by
-            have := inv.keysConnected p.1 op hop e he; rwa [hk] at this)
-          have kq : ∀ e ∈ oq.conn, e.1 ≠ q.2 := fun e he hk => hq' (by
-            have := inv.keysConnected q.1 oq hoq e he; rwa [hk] at this)
-          obtain ⟨ct1, h1⟩ := addConn_of_no_key op p.2 q kp
-          obtain ⟨ct2, h2⟩ := addConn_of_no_key oq q.2 p kq
-          have g1 : getObj { w with clist := w.clist ++ [p, q], conns := w.conns ++ [(p, q)], free := (w.free.erase p).erase q } p.1 = some op := hop
-          rw [if_neg hpq, if_neg hp, if_neg hq, if_neg hfree] at h
-          simp only [g1, h1] at h
-          have g2 : getObj (setObj { w with clist := w.clist ++ [p, q], conns := w.conns ++ [(p, q)], free := (w.free.erase p).erase q } p.1
-              { op with conn := op.conn ++ [(p.2, q)], connTo := ct1 }) q.1 = some oq := by
-            rw [getObj_setObj_other _ _ _ _ hne]; exact hoq
-          simp only [g2, h2] at h
-          exact h rfl
+        · split
+          · rfl
+          · split <;> rfl
+    rw [h.1] at hfree'
+    have : p ∈ (w.free.erase p).erase q := by rw [← hfree']; exact hfp
+    have h2 := List.mem_of_mem_erase this
+    exact (List.Nodup.mem_erase_iff inv.freeNodup).1 h2 |>.1 rfl
+  · exact ⟨op, oq, hop, hoq, h⟩
+
+/-- **atomicity of connect**: in a consistent state a rejected `connect` leaves everything unchanged,
+and `connect` never stops half-way (the outcome is never an exception raised after the tables were written) -/
+theorem connect_atomic (w : W) (inv : WInv w) (p q : Pin) (h : (connect w p q).2 ≠ .ok) : (connect w p q).1 = w := by
+  rcases connect_cases w inv p q with h1 | ⟨op, oq, _, _, _, _, _, _, _, h2⟩
+  · exact h1.1
+  · rw [h2] at h; exact absurd rfl h
+
+theorem connect_never_partial (w : W) (inv : WInv w) (p q : Pin) : (connect w p q).2 ≠ .exception := by
+  rcases connect_cases w inv p q with h1 | ⟨op, oq, _, _, _, _, _, _, _, h2⟩
+  · rcases h1.2 with h | h <;> rw [h] <;> simp
+  · rw [h2]; simp
 
 /-- **idempotence**: repeating an identical connect call, in either orientation, changes nothing and succeeds -/
 theorem connect_idempotent (w : W) (inv : WInv w) (p q : Pin) (hpq : p.1 ≠ q.1) (h : (p, q) ∈ w.conns)
@@ -128,151 +238,118 @@ theorem connect_idempotent (w : W) (inv : WInv w) (p q : Pin) (hpq : p.1 ≠ q.1
     simp only [b2, Bool.false_eq_true, ↓reduceIte, List.contains_eq_mem, hq, decide_true, hl, beq_self_eq_true]
     split <;> rfl
 
-end Wiring
+/-- how the table of structure `i` changes under a state-changing `connect p q` -/
+structure CRel (p q : Pin) (i : Nat) (o o' : SObj) : Prop where
+  pins : o'.pins = o.pins
+  conn : ∀ e, e ∈ o'.conn ↔ (e ∈ o.conn ∨ (i = p.1 ∧ e = (p.2, q)) ∨ (i = q.1 ∧ e = (q.2, p)))
+  toMono : ∀ x ∈ o.connTo, x ∈ o'.connTo
+  toNodup : o.connTo.Nodup → o'.connTo.Nodup
+  toP : i = p.1 → q.1 ∈ o'.connTo
+  toQ : i = q.1 → p.1 ∈ o'.connTo
 
-namespace Wiring
+theorem CRel.refl (p q : Pin) (i : Nat) (o : SObj) (h1 : i ≠ p.1) (h2 : i ≠ q.1) : CRel p q i o o :=
+  ⟨rfl, fun e => by simp [h1, h2], fun _ h => h, fun h => h, fun e => absurd e h1, fun e => absurd e h2⟩
 
-def w1 (w : W) (p q : Pin) : W :=
-  { w with clist := w.clist ++ [p, q], conns := w.conns ++ [(p, q)], free := (w.free.erase p).erase q }
-def addC (o : SObj) (pin : Nat) (t : Pin) (ct : List Nat) : SObj := { o with conn := o.conn ++ [(pin, t)], connTo := ct }
-def connectResult (w : W) (p q : Pin) (op oq : SObj) (ct1 ct2 : List Nat) : W :=
-  setObj (setObj (w1 w p q) p.1 (addC op p.2 q ct1)) q.1 (addC oq q.2 p ct2)
+theorem CRel.left (p q : Pin) (o : SObj) (hne : p.1 ≠ q.1) : CRel p q p.1 o (addC o p.2 q) := by
+  refine ⟨rfl, ?_, fun x h => mem_ctOf_of_mem o q.1 x h, ctOf_nodup o q.1, fun _ => mem_ctOf_self o q.1, fun e => absurd e hne⟩
+  intro e
+  simp [addC, hne]
 
-/-- what a successful, state-changing `connect` did -/
-theorem connect_cases (w : W) (inv : WInv w) (p q : Pin) :
-    (connect w p q).1 = w ∨
-    ∃ op oq ct1 ct2, p.1 ≠ q.1 ∧ p ∉ w.clist ∧ q ∉ w.clist ∧ p ∈ w.free ∧ q ∈ w.free ∧
-      getObj w p.1 = some op ∧ getObj w q.1 = some oq ∧
-      (connect w p q) = (connectResult w p q op oq ct1 ct2, .ok) := by
-  by_cases hpq : (p.1 == q.1) = true
-  · left; unfold connect; rw [if_pos hpq]
-  by_cases hp : w.clist.contains p = true
-  · left; unfold connect; rw [if_neg hpq, if_pos hp]; split; rfl; split <;> rfl
-  by_cases hq : w.clist.contains q = true
-  · left; unfold connect; rw [if_neg hpq, if_neg hp, if_pos hq]
-  by_cases hfree : (!(w.free.contains p) || !(w.free.contains q)) = true
-  · left; unfold connect; rw [if_neg hpq, if_neg hp, if_neg hq, if_pos hfree]
-  right
-  have hp' : p ∉ w.clist := by simpa using hp
-  have hq' : q ∉ w.clist := by simpa using hq
-  have hfp : p ∈ w.free ∧ q ∈ w.free := by
-    simp only [Bool.or_eq_true, Bool.not_eq_true', not_or, Bool.not_eq_false] at hfree
-    exact ⟨by simpa using hfree.1, by simpa using hfree.2⟩
-  obtain ⟨_, op, hop, _⟩ := inv.freeObj p hfp.1
-  obtain ⟨_, oq, hoq, _⟩ := inv.freeObj q hfp.2
-  have hne : q.1 ≠ p.1 := by intro e; apply hpq; simp [e]
-  have kp : ∀ e ∈ op.conn, e.1 ≠ p.2 := fun e he hk => hp' (by
-    have := inv.keysConnected p.1 op hop e he; rwa [hk] at this)
-  have kq : ∀ e ∈ oq.conn, e.1 ≠ q.2 := fun e he hk => hq' (by
-    have := inv.keysConnected q.1 oq hoq e he; rwa [hk] at this)
-  obtain ⟨ct1, h1⟩ := addConn_of_no_key op p.2 q kp
-  obtain ⟨ct2, h2⟩ := addConn_of_no_key oq q.2 p kq
-  refine ⟨op, oq, ct1, ct2, fun e => hne e.symm, hp', hq', hfp.1, hfp.2, hop, hoq, ?_⟩
-  unfold connect
-  rw [if_neg hpq, if_neg hp, if_neg hq, if_neg hfree]
-  have g1 : getObj { w with clist := w.clist ++ [p, q], conns := w.conns ++ [(p, q)], free := (w.free.erase p).erase q } p.1 = some op := hop
-  simp only [g1, h1]
-  have g2 : getObj (setObj { w with clist := w.clist ++ [p, q], conns := w.conns ++ [(p, q)], free := (w.free.erase p).erase q } p.1
-      { op with conn := op.conn ++ [(p.2, q)], connTo := ct1 }) q.1 = some oq := by
-    rw [getObj_setObj_other _ _ _ _ hne]; exact hoq
-  simp only [g2, h2]
-  rfl
+theorem CRel.right (p q : Pin) (o : SObj) (hne : p.1 ≠ q.1) : CRel p q q.1 o (addC o q.2 p) := by
+  refine ⟨rfl, ?_, fun x h => mem_ctOf_of_mem o p.1 x h, ctOf_nodup o p.1, fun e => absurd e.symm hne, fun _ => mem_ctOf_self o p.1⟩
+  intro e
+  have : ¬ q.1 = p.1 := fun e => hne e.symm
+  simp [addC, this]
 
-theorem connect_inv (w : W) (inv : WInv w) (p q : Pin) : WInv (connect w p q).1 := by
-  rcases connect_cases w inv p q with h | ⟨op, oq, ct1, ct2, hne, hp, hq, hfp, hfq, hop, hoq, h⟩
-  · rw [h]; exact inv
-  rw [h]
-  show WInv (setObj (setObj (w1 w p q) p.1 (addC op p.2 q ct1)) q.1 (addC oq q.2 p ct2))
-  generalize hop' : addC op p.2 q ct1 = op'
-  generalize hoq' : addC oq q.2 p ct2 = oq'
-  have eop : op'.conn = op.conn ++ [(p.2, q)] ∧ op'.pins = op.pins := by subst hop'; exact ⟨rfl, rfl⟩
-  have eoq : oq'.conn = oq.conn ++ [(q.2, p)] ∧ oq'.pins = oq.pins := by subst hoq'; exact ⟨rfl, rfl⟩
+theorem connect_heap (w : W) (p q : Pin) (op oq : SObj) (hne : p.1 ≠ q.1)
+    (hop : getObj w p.1 = some op) (hoq : getObj w q.1 = some oq) :
+    (∀ i o, getObj w i = some o → ∃ o', getObj (connectResult w p q op oq) i = some o' ∧ CRel p q i o o') ∧
+    (∀ i o', getObj (connectResult w p q op oq) i = some o' → ∃ o, getObj w i = some o ∧ CRel p q i o o') := by
   have hqp : q.1 ≠ p.1 := fun e => hne e.symm
-  have gq : getObj (setObj (setObj (w1 w p q) p.1 op') q.1 oq') q.1 = some oq' :=
+  have gq : getObj (connectResult w p q op oq) q.1 = some (addC oq q.2 p) :=
     getObj_setObj_same _ _ oq _ (by rw [getObj_setObj_other _ _ _ _ hqp]; exact hoq)
-  have gp : getObj (setObj (setObj (w1 w p q) p.1 op') q.1 oq') p.1 = some op' := by
+  have gp : getObj (connectResult w p q op oq) p.1 = some (addC op p.2 q) := by
+    unfold connectResult
     rw [getObj_setObj_other _ _ _ _ hne]; exact getObj_setObj_same _ _ op _ hop
-  have go : ∀ i, i ≠ p.1 → i ≠ q.1 → getObj (setObj (setObj (w1 w p q) p.1 op') q.1 oq') i = getObj w i := by
+  have go : ∀ i, i ≠ p.1 → i ≠ q.1 → getObj (connectResult w p q op oq) i = getObj w i := by
     intro i h1 h2
+    unfold connectResult
     rw [getObj_setObj_other _ _ _ _ h2, getObj_setObj_other _ _ _ _ h1]; rfl
-  have hclist : (setObj (setObj (w1 w p q) p.1 op') q.1 oq').clist = w.clist ++ [p, q] := rfl
-  have hfree : (setObj (setObj (w1 w p q) p.1 op') q.1 oq').free = (w.free.erase p).erase q := rfl
-  have hstructs : (setObj (setObj (w1 w p q) p.1 op') q.1 oq').structs = w.structs := rfl
-  have hconns : (setObj (setObj (w1 w p q) p.1 op') q.1 oq').conns = w.conns ++ [(p, q)] := rfl
-  have memfree : ∀ x, x ∈ (w.free.erase p).erase q → x ∈ w.free ∧ x ≠ p ∧ x ≠ q := by
-    intro x hx
-    have hnd := inv.freeNodup
-    have h1 := (List.Nodup.mem_erase_iff (hnd.erase p)).1 hx
-    have h2 := (List.Nodup.mem_erase_iff hnd).1 h1.2
-    exact ⟨h2.2, h2.1, h1.1⟩
-  refine ⟨?_, ?_, ?_, ?_, ?_, ?_, ?_, ?_⟩
-  · intro i o hio e he
-    rw [hclist]
-    by_cases hiq : i = q.1
-    · subst hiq
-      rw [gq] at hio
-      have : o = oq' := (Option.some.inj hio).symm
-      subst this
-      rw [eoq.1] at he
-      rcases List.mem_append.1 he with he | he
-      · exact List.mem_append_left _ (inv.keysConnected q.1 oq hoq e he)
-      · have : e = (q.2, p) := by simpa using he
-        subst this
-        exact List.mem_append_right _ (by simp)
-    · by_cases hip : i = p.1
-      · subst hip
-        rw [gp] at hio
-        have : o = op' := (Option.some.inj hio).symm
-        subst this
-        rw [eop.1] at he
-        rcases List.mem_append.1 he with he | he
-        · exact List.mem_append_left _ (inv.keysConnected p.1 op hop e he)
-        · have : e = (p.2, q) := by simpa using he
-          subst this
-          exact List.mem_append_right _ (by simp)
-      · rw [go i hip hiq] at hio
-        exact List.mem_append_left _ (inv.keysConnected i o hio e he)
+  constructor
   · intro i o hio
     by_cases hiq : i = q.1
     · subst hiq
-      rw [gq] at hio
-      have : o = oq' := (Option.some.inj hio).symm
-      subst this
-      rw [eoq.2]; exact inv.pinsNodup q.1 oq hoq
+      rw [hoq] at hio; cases hio
+      exact ⟨_, gq, CRel.right p q oq hne⟩
     · by_cases hip : i = p.1
       · subst hip
-        rw [gp] at hio
-        have : o = op' := (Option.some.inj hio).symm
-        subst this
-        rw [eop.2]; exact inv.pinsNodup p.1 op hop
+        rw [hop] at hio; cases hio
+        exact ⟨_, gp, CRel.left p q op hne⟩
+      · exact ⟨o, by rw [go i hip hiq]; exact hio, CRel.refl p q i o hip hiq⟩
+  · intro i o' hio
+    by_cases hiq : i = q.1
+    · subst hiq
+      rw [gq] at hio; cases hio
+      exact ⟨oq, hoq, CRel.right p q oq hne⟩
+    · by_cases hip : i = p.1
+      · subst hip
+        rw [gp] at hio; cases hio
+        exact ⟨op, hop, CRel.left p q op hne⟩
       · rw [go i hip hiq] at hio
-        exact inv.pinsNodup i o hio
-  · intro x hx
+        exact ⟨o', hio, CRel.refl p q i o' hip hiq⟩
+
+
+
+theorem connect_inv (w : W) (inv : WInv w) (p q : Pin) : WInv (connect w p q).1 := by
+  rcases connect_cases w inv p q with h | ⟨op, oq, hne, hp, hq, hfp, hfq, hop, hoq, h⟩
+  · rw [h.1]; exact inv
+  rw [h]
+  show WInv (connectResult w p q op oq)
+  obtain ⟨fw, bw⟩ := connect_heap w p q op oq hne hop hoq
+  generalize hw' : connectResult w p q op oq = w' at fw bw
+  have hclist : w'.clist = w.clist ++ [p, q] := by subst hw'; rfl
+  have hfree : w'.free = (w.free.erase p).erase q := by subst hw'; rfl
+  have hstructs : w'.structs = w.structs := by subst hw'; rfl
+  have hconns : w'.conns = w.conns ++ [(p, q)] := by subst hw'; rfl
+  have memfree : ∀ x, x ∈ (w.free.erase p).erase q ↔ x ∈ w.free ∧ x ≠ p ∧ x ≠ q := by
+    intro x
+    have hnd := inv.freeNodup
+    rw [List.Nodup.mem_erase_iff (hnd.erase p), List.Nodup.mem_erase_iff hnd]
+    constructor
+    · rintro ⟨h1, h2, h3⟩; exact ⟨h3, h2, h1⟩
+    · rintro ⟨h1, h2, h3⟩; exact ⟨h3, h2, h1⟩
+  refine ⟨?_, ?_, ?_, ?_, ?_, ?_, ?_, ?_, ?_, ?_, ?_, ?_, ?_⟩
+  · -- pinsNodup
+    intro i o' hio
+    obtain ⟨o, ho, r⟩ := bw i o' hio
+    rw [r.pins]; exact inv.pinsNodup i o ho
+  · -- connToNodup
+    intro i o' hio
+    obtain ⟨o, ho, r⟩ := bw i o' hio
+    exact r.toNodup (inv.connToNodup i o ho)
+  · rw [hstructs]; exact inv.structsNodup
+  · -- freeObj
+    intro x hx
     rw [hfree] at hx
-    obtain ⟨hxf, _, _⟩ := memfree x hx
+    obtain ⟨hxf, _, _⟩ := (memfree x).1 hx
     obtain ⟨hs, o, ho, hpin⟩ := inv.freeObj x hxf
-    refine ⟨hs, ?_⟩
-    by_cases hiq : x.1 = q.1
-    · refine ⟨oq', by rw [hiq]; exact gq, ?_⟩
-      rw [hiq, hoq] at ho
-      have : o = oq := (Option.some.inj ho).symm
-      subst this; rw [eoq.2]; exact hpin
-    · by_cases hip : x.1 = p.1
-      · refine ⟨op', by rw [hip]; exact gp, ?_⟩
-        rw [hip, hop] at ho
-        have : o = op := (Option.some.inj ho).symm
-        subst this; rw [eop.2]; exact hpin
-      · exact ⟨o, by rw [go x.1 hip hiq]; exact ho, hpin⟩
-  · intro x hx
+    obtain ⟨o', ho', r⟩ := fw x.1 o ho
+    exact ⟨by rw [hstructs]; exact hs, o', ho', by rw [r.pins]; exact hpin⟩
+  · -- clistObj
+    intro x hx
     rw [hclist] at hx
-    rw [hstructs]
-    rcases List.mem_append.1 hx with hx | hx
-    · exact inv.clistStructs x hx
-    · rcases List.mem_cons.1 hx with rfl | hx
-      · exact (inv.freeObj _ hfp).1
-      · have : x = q := by simpa using hx
-        subst this; exact (inv.freeObj _ hfq).1
-  · rw [hclist]
+    have old : (x.1 ∈ w.structs ∧ ∃ o, getObj w x.1 = some o ∧ x.2 ∈ o.pins) := by
+      rcases List.mem_append.1 hx with hx | hx
+      · exact inv.clistObj x hx
+      · rcases List.mem_cons.1 hx with rfl | hx
+        · exact inv.freeObj _ hfp
+        · have : x = q := by simpa using hx
+          subst this; exact inv.freeObj _ hfq
+    obtain ⟨hs, o, ho, hpin⟩ := old
+    obtain ⟨o', ho', r⟩ := fw x.1 o ho
+    exact ⟨by rw [hstructs]; exact hs, o', ho', by rw [r.pins]; exact hpin⟩
+  · -- clistNodup
+    rw [hclist]
     refine List.nodup_append.2 ⟨inv.clistNodup, ?_, ?_⟩
     · refine List.nodup_cons.2 ⟨?_, by simp⟩
       intro h; have : p = q := by simpa using h
@@ -283,10 +360,11 @@ theorem connect_inv (w : W) (inv : WInv w) (p q : Pin) : WInv (connect w p q).1 
       · have : b = q := by simpa using hb
         subst this; intro e; exact hq (e ▸ ha)
   · rw [hfree]; exact (inv.freeNodup.erase p).erase q
-  · intro x hx
+  · -- freeDisj
+    intro x hx
     rw [hfree] at hx
     rw [hclist]
-    obtain ⟨hxf, hxp, hxq⟩ := memfree x hx
+    obtain ⟨hxf, hxp, hxq⟩ := (memfree x).1 hx
     intro hmem
     rcases List.mem_append.1 hmem with hmem | hmem
     · exact inv.freeDisj x hxf hmem
@@ -296,6 +374,49 @@ theorem connect_inv (w : W) (inv : WInv w) (p q : Pin) : WInv (connect w p q).1 
         exact hxq this
   · rw [hclist, hconns, inv.clistConns]
     simp [List.flatMap_append]
+  · -- freeComplete
+    intro i hi o' hio pn hpn
+    rw [hstructs] at hi
+    obtain ⟨o, ho, r⟩ := bw i o' hio
+    rw [r.pins] at hpn
+    rw [hfree, hclist]
+    rcases inv.freeComplete i hi o ho pn hpn with h | h
+    · by_cases e1 : (i, pn) = p
+      · right; rw [e1]; simp
+      · by_cases e2 : (i, pn) = q
+        · right; rw [e2]; simp
+        · left; exact (memfree _).2 ⟨h, e1, e2⟩
+    · right; exact List.mem_append_left _ h
+  · -- entryConn
+    intro i o' hio e he
+    obtain ⟨o, ho, r⟩ := bw i o' hio
+    rw [hconns]
+    rcases (r.conn e).1 he with h | ⟨hi, rfl⟩ | ⟨hi, rfl⟩
+    · rcases inv.entryConn i o ho e h with h | h
+      · exact Or.inl (List.mem_append_left _ h)
+      · exact Or.inr (List.mem_append_left _ h)
+    · left; subst hi; simp
+    · right; subst hi; simp
+  · -- entryTo
+    intro i o' hio e he
+    obtain ⟨o, ho, r⟩ := bw i o' hio
+    rcases (r.conn e).1 he with h | ⟨hi, rfl⟩ | ⟨hi, rfl⟩
+    · exact r.toMono _ (inv.entryTo i o ho e h)
+    · exact r.toP hi
+    · exact r.toQ hi
+  · -- connsEntry
+    intro c hc
+    rw [hconns] at hc
+    rcases List.mem_append.1 hc with hc | hc
+    · obtain ⟨⟨o1, ho1, m1⟩, ⟨o2, ho2, m2⟩⟩ := inv.connsEntry c hc
+      obtain ⟨o1', ho1', r1⟩ := fw _ o1 ho1
+      obtain ⟨o2', ho2', r2⟩ := fw _ o2 ho2
+      exact ⟨⟨o1', ho1', (r1.conn _).2 (Or.inl m1)⟩, ⟨o2', ho2', (r2.conn _).2 (Or.inl m2)⟩⟩
+    · have : c = (p, q) := by simpa using hc
+      subst this
+      obtain ⟨o1', ho1', r1⟩ := fw _ op hop
+      obtain ⟨o2', ho2', r2⟩ := fw _ oq hoq
+      exact ⟨⟨o1', ho1', (r1.conn _).2 (Or.inr (Or.inl ⟨rfl, rfl⟩))⟩, ⟨o2', ho2', (r2.conn _).2 (Or.inr (Or.inr ⟨rfl, rfl⟩))⟩⟩
 
 theorem addStruct_inv (w : W) (inv : WInv w) (i : Nat) : WInv (addStruct w i).1 := by
   unfold addStruct
@@ -306,11 +427,12 @@ theorem addStruct_inv (w : W) (inv : WInv w) (i : Nat) : WInv (addStruct w i).1 
     · exact inv
     · rename_i o ho
       have hi : i ∉ w.structs := by simpa using hnot
-      have hget : ∀ j, getObj { w with structs := w.structs ++ [i], free := w.free ++ o.pins.map fun p => (i, p) } j = getObj w j :=
-        fun _ => rfl
-      refine ⟨?_, ?_, ?_, ?_, inv.clistNodup, ?_, ?_, inv.clistConns⟩
-      · intro j oj hj e he; exact inv.keysConnected j oj hj e he
-      · intro j oj hj; exact inv.pinsNodup j oj hj
+      refine ⟨inv.pinsNodup, inv.connToNodup, ?_, ?_, ?_, inv.clistNodup, ?_, ?_, inv.clistConns, ?_, inv.entryConn, inv.entryTo, inv.connsEntry⟩
+      · -- structsNodup
+        refine List.nodup_append.2 ⟨inv.structsNodup, by simp, ?_⟩
+        intro a ha b hb
+        have : b = i := by simpa using hb
+        subst this; intro e; exact hi (e ▸ ha)
       · intro x hx
         simp only at hx
         rcases List.mem_append.1 hx with hx | hx
@@ -318,7 +440,9 @@ theorem addStruct_inv (w : W) (inv : WInv w) (i : Nat) : WInv (addStruct w i).1 
           exact ⟨List.mem_append_left _ hs, o', ho', hp⟩
         · obtain ⟨pn, hpn, rfl⟩ := List.mem_map.1 hx
           exact ⟨List.mem_append_right _ (by simp), o, ho, hpn⟩
-      · intro x hx; exact List.mem_append_left _ (inv.clistStructs x hx)
+      · intro x hx
+        obtain ⟨hs, h2⟩ := inv.clistObj x hx
+        exact ⟨List.mem_append_left _ hs, h2⟩
       · simp only
         refine List.nodup_append.2 ⟨inv.freeNodup, ?_, ?_⟩
         · have := inv.pinsNodup i o ho
@@ -334,33 +458,61 @@ theorem addStruct_inv (w : W) (inv : WInv w) (i : Nat) : WInv (addStruct w i).1 
         · exact inv.freeDisj x hx
         · obtain ⟨pn, _, rfl⟩ := List.mem_map.1 hx
           intro hc; exact hi (inv.clistStructs _ hc)
+      · -- freeComplete
+        intro j hj oj hoj pn hpn
+        simp only at hj ⊢
+        rcases List.mem_append.1 hj with hj | hj
+        · rcases inv.freeComplete j hj oj hoj pn hpn with h | h
+          · exact Or.inl (List.mem_append_left _ h)
+          · exact Or.inr h
+        · have : j = i := by simpa using hj
+          subst this
+          have : oj = o := by
+            have h1 : getObj w j = some oj := hoj
+            rw [ho] at h1; exact (Option.some.inj h1).symm
+          subst this
+          exact Or.inl (List.mem_append_right _ (List.mem_map.2 ⟨pn, hpn, rfl⟩))
+
+theorem mapPin_inv (w : W) (inv : WInv w) (n : Nat) (p : Pin) : WInv (mapPin w n p).1 := by
+  unfold mapPin
+  split <;> exact ⟨inv.pinsNodup, inv.connToNodup, inv.structsNodup, inv.freeObj, inv.clistObj, inv.clistNodup, inv.freeNodup,
+    inv.freeDisj, inv.clistConns, inv.freeComplete, inv.entryConn, inv.entryTo, inv.connsEntry⟩
+
+theorem init_getObj (pinCounts : List Nat) (i : Nat) (o : SObj) (h : getObj (init pinCounts) i = some o) :
+    ∃ n, o = { pins := List.range n, conn := [], connTo := [] } := by
+  unfold getObj init at h
+  simp only at h
+  cases hf : (List.map (fun nk : Nat × Nat => (nk.2, ({ pins := List.range nk.1, conn := [], connTo := [] } : SObj))) pinCounts.zipIdx).find? (·.1 == i) with
+  | none => simp [hf] at h
+  | some x =>
+    rw [hf] at h
+    have hm := List.mem_of_find?_eq_some hf
+    obtain ⟨nk, _, rfl⟩ := List.mem_map.1 hm
+    simp only [Option.map_some, Option.some.injEq] at h
+    exact ⟨nk.1, h.symm⟩
 
 theorem init_inv (pinCounts : List Nat) : WInv (init pinCounts) := by
-  refine ⟨?_, ?_, ?_, ?_, ?_, ?_, ?_, ?_⟩
-  · intro i o hio e he
-    unfold getObj init at hio
-    simp only at hio
-    cases hf : (List.map (fun nk : Nat × Nat => (nk.2, ({ pins := List.range nk.1, conn := [], connTo := [] } : SObj))) pinCounts.zipIdx).find? (·.1 == i) with
-    | none => simp [hf] at hio
-    | some x =>
-      rw [hf] at hio
-      have hm := List.mem_of_find?_eq_some hf
-      obtain ⟨nk, _, rfl⟩ := List.mem_map.1 hm
-      simp only [Option.map_some, Option.some.injEq] at hio
-      subst hio
-      simp at he
+  refine ⟨?_, ?_, ?_, ?_, ?_, ?_, ?_, ?_, ?_, ?_, ?_, ?_, ?_⟩
   · intro i o hio
-    unfold getObj init at hio
-    simp only at hio
-    cases hf : (List.map (fun nk : Nat × Nat => (nk.2, ({ pins := List.range nk.1, conn := [], connTo := [] } : SObj))) pinCounts.zipIdx).find? (·.1 == i) with
-    | none => simp [hf] at hio
-    | some x =>
-      rw [hf] at hio
-      have hm := List.mem_of_find?_eq_some hf
-      obtain ⟨nk, _, rfl⟩ := List.mem_map.1 hm
-      simp only [Option.map_some, Option.some.injEq] at hio
-      subst hio
-      exact List.nodup_range
-  all_goals simp [init]
+    obtain ⟨n, rfl⟩ := init_getObj pinCounts i o hio
+    exact List.nodup_range
+  · intro i o hio
+    obtain ⟨n, rfl⟩ := init_getObj pinCounts i o hio
+    simp
+  · simp [init]
+  · simp [init]
+  · simp [init]
+  · simp [init]
+  · simp [init]
+  · simp [init]
+  · simp [init]
+  · simp [init]
+  · intro i o hio e he
+    obtain ⟨n, rfl⟩ := init_getObj pinCounts i o hio
+    simp at he
+  · intro i o hio e he
+    obtain ⟨n, rfl⟩ := init_getObj pinCounts i o hio
+    simp at he
+  · simp [init]
 
 end Wiring
